@@ -1861,6 +1861,11 @@ func (p *c20prover) lenDef(x ssa.Value, blk *ssa.BasicBlock, seen map[ssa.Value]
 		if g, ok := v.X.(*ssa.Global); ok && v.Op == token.MUL {
 			return p.globalLen(g)
 		}
+		if fv, ok := v.X.(*ssa.FreeVar); ok && v.Op == token.MUL {
+			if r, ok := p.capturedLen(v, fv, seen); ok {
+				return r.meet(c20nat)
+			}
+		}
 	case *ssa.Call:
 		if r, ok := c20lenContracts[calleeName(&v.Call)]; ok {
 			return r
